@@ -67,6 +67,22 @@ func Inputs(run *core.Run, tier string) []Input {
 // at it, so that the statement pools of package stmts (in this process and in child processes) include model
 // statements. It returns the number of statements written.
 func ExportForms(run *core.Run) int {
+	out := FormTexts(run)
+	f, err := os.CreateTemp("", "verif-forms-*.txt")
+	if err != nil {
+		core.Fatalf("%v", err)
+	}
+	for _, s := range out {
+		fmt.Fprintln(f, s)
+	}
+	f.Close()
+	os.Setenv("VERIF_EXTRA_STMTS", f.Name())
+	core.RemoveAtExit(f.Name())
+	return len(out)
+}
+
+// FormTexts returns the sample of Select.tla's statement forms described at ExportForms.
+func FormTexts(run *core.Run) []string {
 	sr := core.MustTLC(core.TLCOpts{Spec: "Select", Cfg: "Select.cfg", Timeout: 10 * time.Minute})
 	run.AddTLC(sr.Stat("statement forms (source of base statements for the pools)"))
 	seen := map[string]int{}
@@ -95,15 +111,5 @@ func ExportForms(run *core.Run) int {
 		}
 		out = append(out, Layouts(c.Toks, 0))
 	}
-	f, err := os.CreateTemp("", "verif-forms-*.txt")
-	if err != nil {
-		core.Fatalf("%v", err)
-	}
-	for _, s := range out {
-		fmt.Fprintln(f, s)
-	}
-	f.Close()
-	os.Setenv("VERIF_EXTRA_STMTS", f.Name())
-	core.RemoveAtExit(f.Name())
-	return len(out)
+	return out
 }
